@@ -56,7 +56,20 @@ func (t *template) renderWithoutLayout(ctx context.Context, w io.Writer) error {
 		return err
 	}
 
-	return t.vue.Render(w, t.filename, t.stack.EnvMap())
+	// Buffer the output so that w is unmodified if rendering fails, and so that
+	// a failure of w is reported: the serialiser does not check Write results.
+	buf := &bytes.Buffer{}
+	if err := t.vue.Render(buf, t.filename, t.stack.EnvMap()); err != nil {
+		return err
+	}
+
+	// Check context cancellation before writing
+	if err := ctx.Err(); err != nil {
+		return err
+	}
+
+	_, err := buf.WriteTo(w)
+	return err
 }
 
 // RenderFile processes the template file and writes the output to w.
